@@ -3,10 +3,13 @@
 C19's program grammar (vlib/tmplgen.py, profile "c20") specialised: literal text is restricted to
 [A-Za-z0-9 SP LF], so every < > " ' & in the output comes from a value; the five variables a0..a4 hold
 adversarial values (strings of <>&"' around a unique alphanumeric marker, already-escaped text, text that
-looks like template syntax, valid UTF-8 bytes, objects whose __str__ returns such text, ints, None).
+looks like template syntax, valid UTF-8 bytes, objects whose __str__ returns such text, ints, None, and
+"numbers that are not just digits": IntEnum members and int/float subclasses whose __str__/__format__
+return markup, bool, floats).
 Autoescape is configured at every level: loader default / DictLoader(autoescape=...) /
 Template(autoescape=...) for single files / one {% autoescape f|None %} directive anywhere in any file,
-with f in xhtml_escape, escape, url_escape, a custom namespace function (myesc).  Expression tags sit in
+with f in xhtml_escape, escape, url_escape, custom namespace functions (myesc; bresc, which wraps its
+result in brackets so that a skipped call is visible even for plain numbers).  Expression tags sit in
 included files, in blocks overridden by children, in apply bodies, loops, try blocks; raw tags too.
 
 Oracle.  vlib/tmplref.py attributes every output slice to the tag and file that produced it; the real
@@ -27,7 +30,7 @@ Values whose rendering raises (NameError from an unset local ...) must raise the
 Related open finding (filed under C19, the template is ill-formed): `{% autoescape %}` without a function
 name is accepted and silently turns escaping off for the file (findings_inbox/C19-autoescape-empty-accepted.md).
 
-Sensitivity (quick tier, seed 1, scratch copy of /repo/tornado; all 7 caught; clause after shrinking):
+Sensitivity (quick tier, seed 1, scratch copy of /repo/tornado; all 9 caught; clause after shrinking):
   M1 _Expression.generate consults the root template (include_stack[0]) instead of current_template -> C20.meta_output
   M2 values that are not str/bytes are str()-ed but not escaped                                    -> C20.special_char_without_unescaped_source
   M3 _CodeWriter.include() does not restore current_template on exit                              -> C20.meta_output
@@ -35,6 +38,11 @@ Sensitivity (quick tier, seed 1, scratch copy of /repo/tornado; all 7 caught; cl
   M5 escape.xhtml_escape leaves the apostrophe unescaped                                           -> C20.special_char_without_unescaped_source
   M6 _IncludeBlock.generate keeps the including file's setting for the included file               -> C20.meta_output
   M7 {% autoescape %} also overwrites the loader default (setting leaks into files loaded later)   -> C20.meta_output
+  M8 "numbers need no escaping": escaper skipped when isinstance(value, (int, float))             -> C20.special_char_without_unescaped_source
+     (IntEnum member whose __str__ is markup; was missed before int/float subclasses, bool and the
+     bracket-wrapping escaper were added to the value/function pools)
+  M9 same shortcut with an exact type test, type(value) in (int, float, bool)                      -> C20.output
+     (bool / plain number under the custom escaper bresc: "False" instead of "[False]")
 """
 import copy
 import logging
@@ -53,9 +61,10 @@ READY = True
 RULE = (
     "Hypothesis-generated template programs from C19's grammar (1-4 files, 10 extends/include topologies, depth <= 3, "
     "literal text over [A-Za-z0-9 SP LF]) whose expression/raw tags read five variables with adversarial values "
-    "(<>&\"' around a marker, entity and template-syntax look-alikes, UTF-8 bytes, objects with __str__, int, None); "
+    "(<>&\"' around a marker, entity and template-syntax look-alikes, UTF-8 bytes, objects with __str__, int, float, bool, "
+    "None, IntEnum and int/float subclasses whose __str__/__format__ return markup); "
     "autoescape set by loader/Template argument and by at most one directive per file (xhtml_escape, escape, "
-    "url_escape, custom function, None); plus one metamorphic re-run per case with one file's setting changed.  "
+    "url_escape, two custom functions, None); plus one metamorphic re-run per case with one file's setting changed.  "
     "non-trivial = >= 2 files governed by different settings and an adversarial value (containing a special "
     "character) rendered through include/extends-block/apply; distinct = SHA-1 of the case"
 )
@@ -67,7 +76,7 @@ ASSUMPTIONS = [
 ]
 TECHNIQUE = "property-based testing (Hypothesis): slice-attributed differential oracle, output-alphabet scan, metamorphic re-run"
 LEVEL_TEXT = (
-    "bounded exploration: ~1.2k generated multi-file programs (each rendered twice) per quick run, ~30k thorough; "
+    "bounded exploration: ~1k generated multi-file programs (each rendered twice) per quick run, ~30k thorough; "
     "five variables, fixed function set; {% module %} (needs a RequestHandler) is out of scope"
 )
 SHARDS = 16
@@ -85,12 +94,13 @@ POOLS = {
     "for_heads": ["x0 in vals", "i0 in range(2)", "x0 in [a1, a2]"],
     "set_stmts": ["v0 = a0", "v0 = a3", "v1 = a1"],
     "apply_fns": ["ident", "wrap", "up", "xhtml_escape", "rev", "ident", "wrap"],
-    "autoescapes": ["xhtml_escape", "None", "url_escape", "myesc", "escape", "None"],
+    "autoescapes": ["xhtml_escape", "None", "url_escape", "myesc", "escape", "None", "bresc", "xhtml_escape"],
+    "loader_autoescapes": ["default", "default", "xhtml_escape", None, "myesc", "url_escape", "bresc"],
     "except_specs": ["", "Exception", "NameError"],
     "prelude": ["v0 = a4", "x0 = a2"],
 }
 TRANSPARENT_APPLY = ("ident", "wrap")
-SETTINGS = ["xhtml_escape", "None", "url_escape", "myesc", "escape"]
+SETTINGS = ["xhtml_escape", "None", "url_escape", "myesc", "escape", "bresc"]
 
 # ------------------------------------------------------------------------------------------ values
 _frag = st.one_of(
@@ -114,6 +124,13 @@ def value_strategy(i):
         st.integers(-5, 10 ** 6).map(lambda n: ["int", n]),
         st.just(["none"]),
         txt.map(lambda s: ["list", s]),
+        # numbers that are not "just digits": subclasses of int/float (IntEnum, class N(int), class F(float))
+        # whose str()/format() is markup, bool, floats
+        txt.map(lambda s: ["intenum", s]),
+        st.tuples(st.integers(-3, 99), txt).map(lambda p: ["intsub", p[0], p[1]]),
+        st.tuples(st.sampled_from([1.5, -0.25, 1000.0, 0.0]), txt).map(lambda p: ["floatsub", p[0], p[1]]),
+        st.booleans().map(lambda b: ["bool", b]),
+        st.sampled_from([1.5, -0.25, 1e-07, 12345.678]).map(lambda x: ["float", x]),
     )
 
 
@@ -128,8 +145,42 @@ class AdvObj:
         return "AdvObj(%r)" % self.s
 
 
+def _markup_number(base, number, text):
+    cls = type("Markup" + base.__name__.capitalize(), (base,), {
+        "__str__": lambda self: text,
+        "__format__": lambda self, spec: text,
+    })
+    return cls(number)
+
+
+def _markup_enum(text):
+    import enum
+
+    class Color(enum.IntEnum):
+        RED = 1
+
+        def __str__(self):
+            return text
+
+        def __format__(self, spec):
+            return text
+
+    return Color.RED
+
+
+NUMBER_KINDS = ("int", "float", "bool", "intenum", "intsub", "floatsub")
+
+
 def make_value(spec):
     k = spec[0]
+    if k == "intenum":
+        return _markup_enum(spec[1])
+    if k == "intsub":
+        return _markup_number(int, spec[1], spec[2])
+    if k == "floatsub":
+        return _markup_number(float, spec[1], spec[2])
+    if k in ("bool", "float"):
+        return spec[1]
     if k == "str":
         return spec[1]
     if k == "bytes":
@@ -244,7 +295,7 @@ def run_both(case, files, kwargs):
 
 
 ESCAPERS = {"xhtml_escape": escape.xhtml_escape, "escape": escape.xhtml_escape, "url_escape": escape.url_escape,
-            "myesc": G.fn_myesc}
+            "myesc": G.fn_myesc, "bresc": G.fn_bresc}
 
 
 def bad_specials(data, xhtml=True):
@@ -350,8 +401,16 @@ def run_case(ctx, case):
                 labels.add("bytes_value")
             elif kind == "obj":
                 labels.add("object_str")
-            elif kind in ("int", "none", "list"):
+            elif kind in ("none", "list"):
                 labels.add("non_string_value")
+            elif kind in NUMBER_KINDS:
+                labels.add("number_value")
+                if kind in ("intenum", "intsub", "floatsub"):
+                    labels.add("number_subclass_markup_str")
+                if kind == "bool":
+                    labels.add("bool_value")
+                if gov in ("myesc", "bresc") and sl.kind == "expr":
+                    labels.add("number_under_custom_escaper")
         has_special = any(bytes([c]) in SPECIALS for c in sl.plain)
         through = [v[0] for v in sl.via]
         if has_special and through:
@@ -372,7 +431,9 @@ def run_case(ctx, case):
                 ctx.fail("C20.slice_not_escaped", dict(detail, slice=repr(sl), governing=gov, want=want, got=real_bytes))
             if gov in ("xhtml_escape", "escape") and bad_specials(real_bytes):
                 ctx.fail("C20.special_char_in_escaped_slice", dict(detail, slice=repr(sl), got=real_bytes))
-            if gov in ("url_escape", "myesc") and any(bytes([c]) in SPECIALS for c in real_bytes):
+            if gov == "bresc" and not (real_bytes.startswith(b"[") and real_bytes.endswith(b"]")):
+                ctx.fail("C20.escaper_not_called", dict(detail, slice=repr(sl), got=real_bytes))
+            if gov in ("url_escape", "myesc", "bresc") and any(bytes([c]) in SPECIALS for c in real_bytes):
                 ctx.fail("C20.special_char_in_escaped_slice", dict(detail, slice=repr(sl), got=real_bytes))
         # structural labels
         for kind, fname in sl.via:
@@ -461,4 +522,4 @@ PARTS = {"main": run_case}
 
 def main(ctx):
     ctx.run_replays(PARTS)
-    ctx.explore(c20_case(), run_case, ctx.n(1200, 30000), name="main")
+    ctx.explore(c20_case(), run_case, ctx.n(1000, 30000), name="main")
